@@ -35,7 +35,7 @@ def describe(tier):
                 "slots holding different values; layer B: BFS over packet histories with state = the largest-"
                 "packet-number slots (which slots share a space is taken from RFC 9000 12.3, not from TLExport's tables: a 0-RTT packet moves the 1-RTT slot of its direction and vice versa); layer N: for 4 suites x 9 base values up to 2^62 x both directions, real 1-RTT packets protected by "
                 "the peer model at packet numbers base+1, base+2 are fed to the real session and must be opened (the reconstructed "
-                "number is the AEAD nonce), with runts of the same direction (incomplete header-protection sample) between them and a key-phase flip on a third packet whose number is sent in one byte. non-trivial: the reference decode differs from the plain truncated value "
+                "number is the AEAD nonce), with runts of the same direction (incomplete header-protection sample) between them a key-phase flip on a third packet whose number is sent in one byte, and 300 packets carrying an unknown frame type before a fourth. non-trivial: the reference decode differs from the plain truncated value "
                 "(window arithmetic mattered); distinct = distinct (l, largest, truncated)",
         "exhaustive": True,
         "bounds": {"lengths": [1, 2, 3, 4], "k_values": {l: [str(k) for k in _ks(l, tier)] for l in (1, 2, 3, 4)},
@@ -158,11 +158,24 @@ def run_n(case):
     sample = None
     for bi, base in enumerate(N_BASES):
         for d in ("c", "s"):
-            for step in (1, 2, 3):
-                pn = base + step
+            for step in (1, 2, 3, 4):
+                pn = base + step if step < 4 else base + 3 + 301
+                if step == 4:
+                    # a run of 300 valid packets (one-byte numbers) whose payload ends in a frame type TLExport does not know
+                    # (IMMEDIATE_ACK 0x1f of the ack-frequency extension): they authenticate, and whatever their frames do to
+                    # the parser, the next ordinary packet (one byte too) must be expanded against the last of them
+                    for k in range(300):
+                        src, dst = ends.src_dst(d)
+                        t += 1
+                        rawk = conn.short_pkt(d, b"\x01\x1f", pn=base + 4 + k, pn_len=1, gen=bi + 1)
+                        try:
+                            m.handle_quic_packet(Packet(net.build_frame(src, dst, "udp", rawk), t), m.keylog, m.quic_sessions, {}, True)
+                        except Exception as e:
+                            fails.append({"kind": "raised", "sig": {"layer": "N", "suite": f"{suite:#06x}", "unknown_frame": True}, "detail": repr(e)})
+                            break
                 # step 3: the key phase flips at this (large) packet number, which is sent in ONE byte: packet numbers keep
                 # counting across a key update (RFC 9001 section 6), the reconstruction must still use largest = pn - 1
-                gen = bi + 1 if step == 3 else bi
+                gen = bi + 1 if step >= 3 else bi
                 slot = q.packet_number_server if d == "s" else q.packet_number_client
                 slot[key] = pn - 1 if step == 1 else slot[key]
                 if step == 2:
@@ -179,7 +192,7 @@ def run_n(case):
                         except Exception as e:
                             fails.append({"kind": "raised", "sig": {"layer": "N", "suite": f"{suite:#06x}", "runt": keep - hdr}, "detail": repr(e)})
                 fr, data = conn.stream_frames([(0 if d == "c" else 3, 24)])
-                raw = conn.short_pkt(d, fr, pn=pn, pn_len=1 if step == 3 else 4, gen=gen)
+                raw = conn.short_pkt(d, fr, pn=pn, pn_len=1 if step >= 3 else 4, gen=gen)
                 src, dst = ends.src_dst(d)
                 t += 1
                 packet = Packet(net.build_frame(src, dst, "udp", raw), t)
